@@ -397,6 +397,8 @@ def o_c12(meta, ans, ctx):
 
 
 def o_c15(meta, ans, ctx):
+    if meta.get('kind') == 'rchunk':
+        return None if ans == 'rchunk ok ' + meta['val'] else 'reader: a value of a sum type read through an interrupting reader gives %s' % ans[:60]
     if meta.get('kind') != 'case':
         return None
     a = parse_case_answer(ans)
@@ -424,8 +426,13 @@ def o_c19(meta, ans, ctx):
     if len(parts) != 2:
         return 'shape: unparsable answer'
     al, st = parts
-    if 'panic' in al.split(' | ')[0].split(','):
-        return 'panic: the aligned cursor panicked'
+    ao0, so0 = al.split(' | ')[0].split(','), st.split(' | ')[0].split(',')
+    if 'panic' in ao0 and not ('panic' in so0 and ao0.index('panic') == so0.index('panic')):
+        # (a write that would end above isize::MAX panics in the standard cursor as well — "capacity overflow" — at the same
+        # operation: then the states found after the panic are compared like any others)
+        return 'panic: the aligned cursor panicked where the standard cursor did not'
+    if 'statepanic' in al:
+        return 'state: the observers of the aligned cursor panic after the history'
     if al.endswith('ptrbad'):
         return 'address: storage not aligned to the alignment type'
     if al.rsplit(' ', 1)[0] != st.rsplit(' ', 1)[0]:
@@ -529,6 +536,8 @@ def o_c09(meta, ans, ctx):
     kv = dict(t.split('=', 1) for t in ans.split(' ')[1:] if '=' in t)
     if 'heap' not in kv: return 'shape: ' + ans[:60]
     heap, maps = int(kv['heap']), int(kv['maps'])
+    if kv.get('layouts', '0') != '0':
+        return 'layout: %s allocator calls broke the layout contract — a block handed back with another size or alignment than it was requested with, or a request of zero bytes (%s, %s)' % (kv['layouts'], meta['loader'], meta['variant'])
     what = 'succeeding' if kv.get('first') == 'ok' else ('panicking' if kv.get('first') == 'panic' else 'failing')
     # live bytes are counted exactly by the harness allocator after a warm-up load; one-off allocations are
     # tolerated, a leak grows with the repetitions (at least one byte each)
@@ -611,6 +620,8 @@ def o_c04(meta, ans, ctx):
 
 
 def o_c08(meta, ans, ctx):
+    if meta.get('kind') == 'dropcheck':
+        return None if ans == 'dropcheck ok' else 'drop-order: the destructor of a structure loaded by %s did not see its data (%s): the backing region was gone before its owner was dropped' % (meta['loader'], ans[:80])
     if meta.get('kind') == 'bigfile':
         return o_bigfile(meta, ans)
     if meta.get('kind') == 'rchunk':
@@ -729,6 +740,19 @@ def o_iterretry(meta, ans):
 
 
 def o_c13(meta, ans, ctx):
+    if meta.get('kind') == 'bigser':
+        p = ans.split(' ')
+        kv = dict(t.split('=', 1) for t in p[2:] if '=' in t)
+        total = 64 + meta['n']
+        sink = meta['sink']
+        fails = (sink == 'once' and meta['n'] >= 1 << 20) or (sink.startswith('perm') and total > int(sink[4:]))
+        if p[1] == 'panic': return 'panic: serialization of a large payload panicked'
+        if fails:
+            if p[1] != 'err': return 'success: the sink refused a write of a large payload and serialization reported %s' % p[1]
+            if kv.get('after') != '0': return 'continued: %s more writes were offered to the sink after it had refused one' % kv.get('after')
+        else:
+            if p[1] != 'ok:%d' % total or kv.get('accepted') != str(total): return 'count: %d bytes to a sink that takes everything gave %s accepted=%s' % (total, p[1], kv.get('accepted'))
+        return None
     if meta.get('kind') == 'iterretry':
         return o_iterretry(meta, ans)
     kind = meta.get('kind')
@@ -783,6 +807,8 @@ def o_c13(meta, ans, ctx):
 
 
 def o_c14(meta, ans, ctx):
+    if meta.get('kind') == 'bigfile':
+        return o_bigfile(meta, ans)
     if meta.get('kind') != 'rchunk':
         return None
     if ans == 'rchunk panic': return 'panic: deserialize_full panicked on a fragmenting/failing reader'
